@@ -207,7 +207,9 @@ def classvars_at_runtime() -> List[str]:
 # ---------------------------------------------------------------------------------------------- replay
 def _run_interleaving(rp: dict) -> dict:
     sched = [tuple(x) for x in rp["schedule"]]
-    return iso.interleaving(rp["cfg_a"], rp["cfg_b"], sched)
+    cfg_a = rp["cfg_a"] if "cfg_a" in rp else _variant(rp["a"])   # corpus files name the scenarios, replay files carry them
+    cfg_b = rp["cfg_b"] if "cfg_b" in rp else _variant(rp["b"])
+    return iso.interleaving(cfg_a, cfg_b, sched)
 
 
 def replay(rec: dict) -> bool:
@@ -215,6 +217,8 @@ def replay(rec: dict) -> bool:
     if rp.get("type") == "interleaving":
         return _run_interleaving(rp)["diff"] is None
     if rp.get("type") == "dirty-history":
+        if not isinstance(rp["cfg"], dict):
+            return False  # scenario directory copied to a temporary place: re-run the check instead
         used = scen.make_env(rp["cfg"])
         for op in rp["history"]:
             if op[0] == "reset":
@@ -228,7 +232,7 @@ def replay(rec: dict) -> bool:
             fresh.reset(seed=0)
         t2 = iso.run_ops(fresh, later, iso.Canon())
         return iso.first_difference(t1, t2) is None
-    return True
+    return False  # identity / scheduler / global-mutated records are not re-executable on their own: re-run the check
 
 
 def _shrink_schedule(cfg_a, cfg_b, schedule, channels) -> List[Tuple]:
